@@ -326,10 +326,36 @@ def gen_cfg(rng: random.Random, big: bool):
         bs = rng.choice([16, 32, 64, 100])  # plain int
     else:
         bs = [blk() for _ in range(rng.choice([1, 1, 2, 3]))]
-    comp = rng.choice(["deflate", "zstd", "none"])
+    # compression matrix: every codec the writer accepts (tifffile names + odc-geo's LERC_DEFLATE / LERC_ZSTD), letter
+    # case varied, with the GDAL-style level keywords that belong to it, `level=`, `compressionargs=` and predictor
+    comp = rng.choice(["deflate", "deflate", "zstd", "zstd", "none", "adobe_deflate", "lzw", "packbits", "lzma", "lerc",
+                       "lerc_deflate", "lerc_zstd", "LERC_ZSTD", "Lerc_Deflate", "ZSTD", "jpeg", "webp"])
+    ckw = {}
+    cu = comp.upper()
+    own = {"DEFLATE": "zlevel", "ADOBE_DEFLATE": "zlevel", "ZSTD": "zstd_level", "LERC": "max_z_error",
+           "LERC_DEFLATE": "max_z_error", "LERC_ZSTD": "max_z_error", "WEBP": "webp_level", "JPEG": "jpeg_quality"}.get(cu)
+    case = lambda k: rng.choice([k, k.upper()])
+    r_ = rng.random()
+    if own is not None and r_ < 0.35:
+        ckw[case(own)] = (rng.choice([0.5, 1, 2, 9]) if own == "max_z_error" else
+                          rng.choice([75, 90]) if own in ("jpeg_quality", "webp_level") else rng.choice([1, 6, 9]))
+    elif r_ < 0.5 and cu != "NONE":
+        ckw["level"] = rng.choice([1, 5, 9]) if not cu.startswith("LERC") else rng.choice([0.5, 2])
+    if cu == "LERC_DEFLATE" and rng.random() < 0.6:
+        ckw[case("zlevel")] = rng.choice([1, 9])
+    if cu == "LERC_ZSTD" and rng.random() < 0.6:
+        ckw[case("zstd_level")] = rng.choice([1, 9])
     pred = rng.choice([None, True, False])
-    if comp == "none" and pred is True:
-        pred = False  # tifffile rejects "predictor without compression": not a supported configuration
+    if (cu == "NONE" and pred is True) or cu.startswith("LERC") or cu in ("JPEG", "WEBP", "PACKBITS"):
+        pred = None if cu != "NONE" else False  # predictor only where tifffile allows it (else: rejected configuration)
+    if cu in ("JPEG", "WEBP"):
+        dt = "uint8"
+        if cu == "WEBP":
+            ax, ns = "YXS", rng.choice([3, 4])
+        elif ax != "YX":
+            ax, ns = "YXS", 3
+    elif rng.random() < 0.08:
+        dt = rng.choice(["int64", "uint64", "float16", "int8", "int32"])  # dtypes some codecs cannot take
     if dt == "float64":
         nodata = rng.choice([None, None, 0, -9999, float("nan"), 1.7976931348623157e308, 5e-324, -1e308])
     elif dt == "float32":
@@ -338,6 +364,8 @@ def gen_cfg(rng: random.Random, big: bool):
         nodata = rng.choice([None, None, 0, 7, 255])
     elif dt == "uint16":
         nodata = rng.choice([None, None, 0, 7, 65535])
+    elif dt in ("int8", "float16", "uint64"):
+        nodata = rng.choice([None, None, 0, 7])
     else:
         nodata = rng.choice([None, None, 0, -9999, 7])
     # source chunking: anything from single pixels to one chunk, but keep the dask graph small (<= ~500 chunks)
@@ -347,14 +375,33 @@ def gen_cfg(rng: random.Random, big: bool):
             cy *= 2
         else:
             cx *= 2
+    # irregular source chunking (explicit chunk tuples): chunks equal to / larger / smaller than the tile, mixed
+    irregular = None
+    if rng.random() < 0.3:
+        t0 = 16 if bs is None else (bs if isinstance(bs, int) else bs[0])
+        t0 = ceil_to(max(t0 if isinstance(t0, int) else t0[0], 1), 16)
+
+        def split(n):
+            out = []
+            while sum(out) < n and len(out) < 24:
+                out.append(rng.choice([t0, t0, 2 * t0, max(t0 // 2, 1), rng.randint(1, t0), 3 * t0]))
+            if sum(out) < n:
+                out.append(n - sum(out))
+            out[-1] -= sum(out) - n
+            return [c for c in out if c > 0]
+
+        irregular = [split(ny), split(nx)]
     return dict(
-        shape=[ny, nx], axis=ax, ns=ns, dtype=dt, blocksize=bs, comp=comp, predictor=pred, nodata=nodata,
-        chunks=[cy, cx],
+        shape=[ny, nx], axis=ax, ns=ns, dtype=dt, blocksize=bs, comp=comp, ckw=ckw, predictor=pred, nodata=nodata,
+        chunks=[cy, cx], irregular=irregular, byteorder=rng.choice(["=", "=", "=", "=", "=", ">"]),
+        dst_state=rng.choice(["fresh", "fresh", "fresh", "existing-small", "existing-large", "parts-dir"]),
+        recompute=rng.random() < 0.1,
         sch=rng.choice([1, ns]), spill_sz=rng.choice([None, None, 1, 5000, 20000, 100000]),
         wpc=rng.choice([None, None, 1, 2, 3]), bigtiff=rng.choice([None, None, True, False]),
         stats=rng.choice([True, False, True]),
         sched=rng.choice(["sync", "threads1", "threads2", "threads4", "threads8", "rand", "rand", "rand"]),
-        pixseed=rng.randint(0, 10**6), level=rng.choice([None, None, 1, 9]), dyadic=rng.random() < 0.75,
+        pixseed=rng.randint(0, 10**6), level=rng.choice([None, None, 1, 9]) if not ckw and cu in ("DEFLATE", "ZSTD") else None,
+        dyadic=rng.random() < 0.75,
         dask_cfg=rng.randrange(len(DASK_CFGS)),
     )
 
@@ -378,7 +425,11 @@ def build_input(cfg, GeoBox, wrap_xr):
         flat = pix.reshape(-1)
         flat[prng.integers(0, flat.size, size=max(1, flat.size // 7))] = nodata
     cy, cx = cfg["chunks"]
+    if cfg.get("irregular"):
+        cy, cx = (tuple(c) for c in cfg["irregular"])
     ch = (cy, cx) if ax == "YX" else ((cy, cx, cfg["sch"]) if ax == "YXS" else (cfg["sch"], cy, cx))
+    if cfg.get("byteorder", "=") == ">" and dt.itemsize > 1:
+        pix = pix.astype(dt.newbyteorder(">"))  # same values, big-endian storage
     dd = da.from_array(pix, chunks=ch)
     kw = {}
     if ax == "SYX":
@@ -392,8 +443,9 @@ def build_input(cfg, GeoBox, wrap_xr):
                         ("bigtiff", "bigtiff"), ("level", "level")):
         if cfg.get(k_cfg) is not None:
             skw[k_kw] = cfg[k_cfg]
-    if cfg["comp"] == "none":
+    if cfg["comp"].lower() == "none" or "level" in cfg.get("ckw", {}):
         skw.pop("level", None)
+    skw.update(cfg.get("ckw", {}))
     return xx, pix, gbox, skw
 
 
@@ -411,6 +463,58 @@ def fill_eq(arr, fill) -> bool:
     if isinstance(fill, float) and math.isnan(fill):
         return bool(np.all(np.isnan(arr)))
     return bool(np.all(arr == fill))
+
+
+LOSSY_CODECS = ("JPEG", "WEBP")
+
+
+def expected_codec(cfg):
+    """Harness-side reading of the compression request (independent of odc-geo's normaliser): the tifffile codec, the
+    keyword arguments its encoder should receive, and the pixel tolerance the caller asked for.  Lossless unless asked:
+    only LERC's max_z_error (GDAL keyword, or `level=` which tifffile documents as LERC's max error) permits a deviation;
+    zlevel / zstd_level / level of the other codecs, and the inner deflate / zstd level of LERC_*, never do."""
+    c = cfg["comp"].upper()
+    c = "ADOBE_DEFLATE" if c == "DEFLATE" else c
+    lk = {k.lower(): v for k, v in cfg.get("ckw", {}).items()}
+    own = {"ADOBE_DEFLATE": "zlevel", "ZSTD": "zstd_level", "LERC": "max_z_error", "LERC_DEFLATE": "max_z_error",
+           "LERC_ZSTD": "max_z_error", "WEBP": "webp_level", "JPEG": "jpeg_quality"}.get(c)
+    level = lk.get("level", cfg.get("level") if c != "NONE" else None)
+    if level is None and own is not None:
+        level = lk.get(own)
+    args = {} if level is None else {"level": level}
+    if c == "LERC_DEFLATE":
+        args["compression"] = "deflate"
+        if "zlevel" in lk:
+            args["compressionargs"] = {"level": lk["zlevel"]}
+    if c == "LERC_ZSTD":
+        args["compression"] = "zstd"
+        if "zstd_level" in lk:
+            args["compressionargs"] = {"level": lk["zstd_level"]}
+    base = "LERC" if c.startswith("LERC") else c
+    tol = float(level) if base == "LERC" and level is not None else 0.0
+    return base, args, tol
+
+
+def codec_probe(cfg, tile_shape):
+    """Can the codec itself encode one tile of this dtype / sample layout with these arguments?  None if it can, else the
+    codec's own error — then the writer has to fail loudly too, never write empty tiles."""
+    import tifffile  # pylint: disable=import-outside-toplevel
+
+    base, args, _ = expected_codec(cfg)
+    if base == "NONE":
+        return None
+    try:
+        enc = tifffile.TIFF.COMPRESSORS[int(tifffile.enumarg(tifffile.COMPRESSION, base))]
+        blk_ = (np.arange(int(np.prod(tile_shape))) % 97).reshape(tile_shape).astype(np.dtype(cfg["dtype"]))
+        out = enc(blk_, **args)
+        return None if isinstance(out, (bytes, bytearray)) and len(out) > 0 else "encoder returned nothing"
+    except Exception as e:  # pylint: disable=broad-except
+        return f"{type(e).__name__}: {str(e)[:120]}"
+
+
+def innermost_in(e: BaseException, *libs) -> bool:
+    tb = traceback.extract_tb(e.__traceback__)
+    return bool(tb) and any(f"/{l}/" in tb[-1].filename for l in libs)
 
 
 def sched_of(cfg) -> str:
@@ -475,9 +579,28 @@ def e2e(cfg, workdir: str, tag: str, precomputed: bool = False):
         meta = dry["meta"]
         facts["cog"] = cog_s(meta)
     except Exception as e:  # pylint: disable=broad-except
+        if innermost_in(e, "tifffile", "imagecodecs") and cfg["comp"].lower() not in ("deflate", "zstd", "none"):
+            # tifffile's own validation refuses the combination (e.g. JPEG with 16-bit samples): a rejected
+            # configuration, nothing written, nothing judged
+            facts.pop("cog_line", None)
+            facts["rejected"] = f"{type(e).__name__}: {str(e)[:80]}"
+            return facts, fails
         facts["cog"] = "ERR:" + type(e).__name__
         fails.append((f"save-cog-raises:{type(e).__name__}@header", f"header/graph construction raised {type(e).__name__}: {e}"))
         return facts, fails
+    base_codec, _, tol = expected_codec(cfg)
+    probe_err = codec_probe(cfg, meta.chunks if ax != "SYX" else meta.tile.yx)
+
+    # ---- destination state before the write: fresh path, pre-existing file (smaller / larger than the new COG),
+    # pre-existing (empty) parts directory
+    if not precomputed:
+        st = cfg.get("dst_state", "fresh")
+        if st == "existing-small":
+            open(fn, "wb").write(b"II*\x00 an older, smaller file")
+        elif st == "existing-large":
+            open(fn, "wb").write(os.urandom(300_000))
+        elif st == "parts-dir":
+            os.makedirs(os.path.join(workdir, f".{tag}.tif.parts"), exist_ok=True)
 
     # ---- the real parallel write
     try:
@@ -489,10 +612,35 @@ def e2e(cfg, workdir: str, tag: str, precomputed: bool = False):
             with dask_cfg(cfg):
                 fut = T.save_cog_with_dask(xx, fn, **dict(skw))
                 rr = compute_with(fut, sched_of(cfg))
+                if str(rr) == fn and os.path.exists(fn) and cfg.get("recompute"):
+                    first = open(fn, "rb").read()
+                    compute_with(fut, sched_of(cfg))  # the same Delayed, computed again
+                    if open(fn, "rb").read() != first:
+                        fails.append(("recompute-changes-file", "computing the returned Delayed a second time changed the file"))
             if str(rr) != fn or not os.path.exists(fn):
                 fails.append(("save-cog-no-file", f"compute() returned {rr!r}"))
                 return facts, fails
+            if cfg.get("dst_state", "fresh") != "fresh" or cfg.get("recompute"):
+                # the destination must be exactly the new COG: byte-identical to the same save into a fresh path
+                ref = os.path.join(workdir, f"{tag}-fresh.tif")
+                with dask_cfg(cfg):
+                    T.save_cog_with_dask(xx, ref, **dict(skw)).compute(scheduler="synchronous")
+                same = open(ref, "rb").read() == open(fn, "rb").read()
+                os.unlink(ref)
+                if not same:
+                    fails.append(("destination-not-exactly-new-file",
+                                  f"destination state {cfg.get('dst_state')}: file differs from the same save into a fresh path "
+                                  f"({os.path.getsize(fn)} bytes)"))
     except Exception as e:  # pylint: disable=broad-except
+        if probe_err is None and base_codec in LOSSY_CODECS and innermost_in(e, "imagecodecs", "tifffile"):
+            probe_err = f"{type(e).__name__}: {str(e)[:80]}"  # the lossy codec's own refusal (sample layout, size)
+        if probe_err is not None and not precomputed:
+            facts["rejected"] = f"codec cannot encode this: {probe_err}"  # loud failure is the right outcome
+            facts.pop("cog_line", None)
+            for leftover in (fn, ):
+                if os.path.exists(leftover) and cfg.get("dst_state", "fresh") == "fresh":
+                    fails.append(("failed-save-left-a-file", "the save raised but left a destination file behind"))
+            return facts, fails
         tb = traceback.extract_tb(e.__traceback__)
         loc = [f"{os.path.basename(t.filename)}:{t.name}" for t in tb if "odc/geo" in t.filename][-1:]
         where = loc[0].split(":")[1] if loc else "dask"
@@ -500,11 +648,27 @@ def e2e(cfg, workdir: str, tag: str, precomputed: bool = False):
         return facts, fails
     if os.path.exists(os.path.join(workdir, f".{tag}.tif.parts")):
         fails.append(("parts-dir-left-behind", "temporary parts directory not removed"))
+    if probe_err is not None:
+        fails.append(("codec-failure-swallowed", f"the codec cannot encode this configuration ({probe_err}) but the save reported success"))
 
     metas = list(meta.flatten())
     fsize = os.path.getsize(fn)
     fill = 0 if cfg["nodata"] is None else cfg["nodata"]
     want = pix if ax == "SYX" else (pix[None] if ax == "YX" else pix.transpose(2, 0, 1))
+    want = want.astype(want.dtype.newbyteorder("="))  # values, whatever the storage byte order of the source
+    lossy = base_codec in LOSSY_CODECS
+
+    def px_equal(a, b):
+        if lossy:
+            return True  # JPEG / WEBP: lossy by nature, pixel values not judged (structure, shape, dtype are)
+        if base_codec == "LERC" and b.dtype.kind == "f" and np.isnan(b).any():
+            # LERC keeps NaN as a per-pixel validity mask shared by the samples of a pixel: judge the pixels without NaN
+            ok_ = ~np.isnan(b).any(axis=0, keepdims=True)
+            a, b = np.where(ok_, a, 0), np.where(ok_, b, 0)
+        if tol > 0:
+            d = np.abs(a.astype("float64") - b.astype("float64"))
+            return bool(np.all((d <= tol * (1 + 1e-6)) | (np.isnan(a.astype("float64")) & np.isnan(b.astype("float64")))))
+        return np.array_equal(a, b, equal_nan=True)
 
     # ---- tifffile: structure, tags, decode
     with tifffile.TiffFile(fn) as tf:
@@ -546,8 +710,8 @@ def e2e(cfg, workdir: str, tag: str, precomputed: bool = False):
         fails.append(("tile-data-inside-header", f"first tile at {hdr_sz} but IFD data reaches {tag_end}"))
     if len(tags) > 1:
         ov_end = max(o + n for os_, ns_ in tags[1:] for o, n in zip(os_, ns_))
-        full_start = min(o for o, n in zip(*tags[0]) if n)
-        if ov_end > full_start:
+        full_start = min((o for o, n in zip(*tags[0]) if n), default=None)
+        if full_start is not None and ov_end > full_start:
             fails.append(("overviews-not-first", f"overview data reaches {ov_end}, full resolution starts at {full_start}"))
     for k, (m, sh, tl, (os_, _)) in enumerate(zip(metas, page_shapes, page_tiles, tags)):
         cy, cx = -(-sh[0] // tl[0]), -(-sh[1] // tl[1])
@@ -579,9 +743,11 @@ def e2e(cfg, workdir: str, tag: str, precomputed: bool = False):
                 fails.append(("gdal-shape", f"GDAL sees {(H, W)} tifffile {page_shapes[0]}"))
             if got.shape[0] != want.shape[0] or got.dtype != want.dtype:
                 fails.append(("band-count-or-dtype", f"read {got.shape} {got.dtype}, wrote {want.shape} {want.dtype}"))
-            elif not np.array_equal(got[:, :ny, :nx], want, equal_nan=True):
-                fails.append(("pixels-differ-gdal", f"{int(np.sum(got[:, :ny, :nx] != want))} pixels differ"))
-            elif not (fill_eq(got[:, ny:, :], fill) and fill_eq(got[:, :, nx:], fill)):
+            elif not px_equal(got[:, :ny, :nx], want):
+                dmax = float(np.nanmax(np.abs(got[:, :ny, :nx].astype("float64") - want.astype("float64"))))
+                fails.append(("pixels-differ-gdal", f"{int(np.sum(got[:, :ny, :nx] != want))} pixels differ, largest deviation "
+                              f"{dmax} (codec {base_codec}, tolerance asked for: {tol})"))
+            elif tol == 0 and not lossy and not (fill_eq(got[:, ny:, :], fill) and fill_eq(got[:, :, nx:], fill)):
                 fails.append(("padding-not-fill", f"right/bottom padding is not the fill value {fill}"))
             ft, gt = tuple(f.transform)[:6], tuple(gbox0.transform)[:6]
             if cfg.get("dyadic", True):
@@ -608,9 +774,13 @@ def e2e(cfg, workdir: str, tag: str, precomputed: bool = False):
                 if tf_levels:
                     tl_ = tf_levels[k]
                     tl_ = tl_[None] if tl_.ndim == 2 else (tl_.transpose(2, 0, 1) if ax == "YXS" else tl_)
-                    if tl_.shape != ov.shape or not np.array_equal(tl_, ov, equal_nan=True):
+                    lerc_nan = base_codec == "LERC" and ov.dtype.kind == "f"  # LERC stores NaN as "invalid"; readers differ
+                    if not lerc_nan and (tl_.shape != ov.shape or not np.array_equal(tl_, ov, equal_nan=True)):
                         fails.append(("overview-readers-disagree", f"level {k}: tifffile and GDAL decode differently"))
                 # nearest resampling of exact halves: every overview pixel is one of its 2x2 parents
+                if tol > 0 or lossy:
+                    prev = ov
+                    continue
                 py, px = ov.shape[1], ov.shape[2]
                 blk = np.stack([prev[:, i:2 * py:2, j:2 * px:2] for i in (0, 1) for j in (0, 1)])
                 inside_y = (2 * (np.arange(py) + 1)) * 2 ** (k - 1) <= ny
@@ -627,8 +797,14 @@ def e2e(cfg, workdir: str, tag: str, precomputed: bool = False):
         t0 = a0[None] if a0.ndim == 2 else (a0.transpose(2, 0, 1) if ax == "YXS" else a0)
         if t0.shape[0] != want.shape[0] or t0.dtype != want.dtype:
             fails.append(("band-count-or-dtype-tifffile", f"{t0.shape} {t0.dtype}"))
-        elif not np.array_equal(t0[:, :ny, :nx], want, equal_nan=True):
-            fails.append(("pixels-differ-tifffile", "tifffile decodes different pixels"))
+        else:
+            tw_, ww_ = t0[:, :ny, :nx], want
+            if base_codec == "LERC" and want.dtype.kind == "f":
+                # LERC stores NaN as an invalid-pixel mask; tifffile returns 0 there, GDAL the nodata value: compare elsewhere
+                ok_ = ~np.isnan(want)
+                tw_, ww_ = np.where(ok_, tw_, 0), np.where(ok_, ww_, 0)
+            if not px_equal(tw_, ww_):
+                fails.append(("pixels-differ-tifffile", "tifffile decodes different pixels"))
     os.unlink(fn)
     return facts, fails
 
@@ -654,7 +830,7 @@ def plan_levels(cfg):
 def uncompressed_single_tile_level(cfg) -> bool:
     """KNOWN FINDING (not repaired): with compression NONE, a pyramid level that is exactly one tile makes tifffile
     write "contiguously" and drain the endless `itertools.repeat(b"")` that `_make_empty_cog` passes → endless loop."""
-    return cfg["comp"] == "none" and any(sh == tl for sh, tl in plan_levels(cfg))
+    return cfg["comp"].lower() == "none" and any(sh == tl for sh, tl in plan_levels(cfg))
 
 
 class _Timeout(Exception):
@@ -677,11 +853,134 @@ def with_timeout(seconds: float, fn):
         signal.signal(signal.SIGALRM, old)
 
 
+# --------------------------------------------------------------------------- forced interleavings at the file sink
+class StepSched:
+    """Tiny deterministic scheduler (the idea of harness/c18_sched.py): worker threads run the real `MPUFileSink`
+    code, but park at every filesystem call the sink makes (`Path.exists`, `Path.mkdir`, `open`) and exactly one of them
+    runs at a time, in the order given by `schedule` (a list of thread ids, one entry per step)."""
+
+    def __init__(self, schedule, nthreads):
+        self.schedule = list(schedule)
+        self.pos = 0
+        self.running = None
+        self.finished = set()
+        self.cv = threading.Condition()
+        self.n = nthreads
+        self.tl = threading.local()
+        self.trace = []
+        self.gave_up = False
+
+    def _next(self):
+        while self.pos < len(self.schedule) and self.schedule[self.pos] in self.finished:
+            self.pos += 1
+        if self.pos < len(self.schedule):
+            return self.schedule[self.pos]
+        left = [t for t in range(self.n) if t not in self.finished]
+        return left[0] if left else None
+
+    def yield_point(self, label):
+        me = getattr(self.tl, "tid", None)
+        if me is None:
+            return
+        with self.cv:
+            if self.running == me:
+                self.running = None
+                self.cv.notify_all()
+            t_end = time.time() + 5.0
+            while not self.gave_up and not (self.running is None and self._next() == me):
+                if not self.cv.wait(timeout=0.5) and time.time() > t_end:
+                    self.gave_up = True
+                    self.cv.notify_all()
+            self.running = me
+            if self.pos < len(self.schedule) and self.schedule[self.pos] == me:
+                self.pos += 1
+            self.trace.append(f"{me}:{label}")
+
+    def run(self, fns):
+        out = [None] * len(fns)
+
+        def body(i):
+            self.tl.tid = i
+            try:
+                self.yield_point("start")
+                out[i] = ("ok", fns[i]())
+            except BaseException as e:  # pylint: disable=broad-except
+                out[i] = ("exc", e)
+            finally:
+                with self.cv:
+                    self.finished.add(i)
+                    if self.running == i:
+                        self.running = None
+                    self.cv.notify_all()
+
+        ths = [threading.Thread(target=body, args=(i,), daemon=True) for i in range(len(fns))]
+        for t in ths:
+            t.start()
+        for t in ths:
+            t.join(timeout=20)
+        return out
+
+
+def sink_race_case(schedule, nthreads, workdir, tag):
+    """`nthreads` workers each write their first part through ONE shared MPUFileSink while the parts directory does not
+    exist yet, interleaved as `schedule` says; then the parts are finalised.  Returns None or (key, what)."""
+    # pylint: disable=import-outside-toplevel
+    import builtins
+    import pathlib
+
+    import odc.geo.cog._mpu_fs as FS
+
+    sch = StepSched(schedule, nthreads)
+    base = type(pathlib.Path())
+
+    class YPath(base):  # the sink's own paths: same behaviour, but a scheduling point before each filesystem call
+        def exists(self, *a, **k):
+            sch.yield_point("exists")
+            return super().exists(*a, **k)
+
+        def mkdir(self, *a, **k):
+            sch.yield_point("mkdir")
+            return super().mkdir(*a, **k)
+
+    def yopen(*a, **k):
+        sch.yield_point("open")
+        return builtins.open(*a, **k)
+
+    dst = os.path.join(workdir, f"{tag}.bin")
+    old_path, had_open = FS.Path, "open" in FS.__dict__
+    FS.Path, FS.open = YPath, yopen
+    try:
+        sink = FS.MPUFileSink(dst)
+        payloads = [bytes([65 + i]) * (10 + i) for i in range(nthreads)]
+        res = sch.run([lambda i=i: sink(i + 1, payloads[i]) for i in range(nthreads)])
+    finally:
+        FS.Path = old_path
+        if not had_open:
+            del FS.open
+    try:
+        bad = [(i, r[1]) for i, r in enumerate(res) if r is None or r[0] != "ok"]
+        if bad:
+            i, e = bad[0]
+            return ("sink-first-writes-race", f"thread {i} writing its first part raised {type(e).__name__}: {e} (trace {' '.join(sch.trace)})")
+        if sch.gave_up:
+            return None  # schedule not realisable (a thread needed fewer steps): nothing forced, nothing judged
+        parts = sorted((r[1] for r in res), key=lambda p_: p_["PartNumber"])
+        sink.finalise(parts)
+        got = open(dst, "rb").read()
+        if got != b"".join(payloads):
+            return ("sink-first-writes-race", f"finalised file differs from the parts in order (trace {' '.join(sch.trace)})")
+        return None
+    finally:
+        shutil.rmtree(os.path.join(workdir, f".{tag}.bin.parts"), ignore_errors=True)
+        if os.path.exists(dst):
+            os.unlink(dst)
+
+
 def cfg_sig(cfg) -> str:
     ny, nx = cfg["shape"]
     narrow = "1px" if min(ny, nx) == 1 else ("narrow" if min(ny, nx) < 16 else "wide")
     sched = cfg["sched"].rstrip("0123456789")
-    return f"e2e|{cfg['axis']}|{narrow}|{cfg['comp']}|{sched}"
+    return f"e2e|{cfg['axis']}|{narrow}|{cfg['comp'].lower()}|{sched}"
 
 
 def run_e2e(R: Run, cfg, workdir: str, tag: str, precomputed: bool = False):
@@ -692,6 +991,8 @@ def run_e2e(R: Run, cfg, workdir: str, tag: str, precomputed: bool = False):
     except Exception as e:  # pylint: disable=broad-except
         facts, fails = {}, [("harness-e2e-exception", traceback.format_exc()[-800:])]
     sig = cfg_sig(cfg)
+    if "rejected" in facts:
+        R.count("e2e|configuration-rejected-loudly|" + cfg["comp"].lower())
     if "cog_line" in facts:
         R.corr(facts["cog_line"], lambda: facts["cog"], sig=sig + "|header")
     if "order" in facts:
@@ -1032,6 +1333,20 @@ def run(R: Run):
             dict(shape=[28, 3], axis="SYX", ns=2, dtype="uint16", blocksize=[(64, 100)], comp="deflate", predictor=False, nodata=7,
                  chunks=[50, 64], sch=1, spill_sz=1, wpc=3, bigtiff=True, stats=True, sched="threads1", pixseed=7, level=None),
         ]
+        base_cfg = dict(shape=[40, 40], axis="YX", ns=1, dtype="uint16", blocksize=[16], comp="deflate", predictor=None, nodata=None,
+                        chunks=[16, 16], sch=1, spill_sz=None, wpc=None, bigtiff=None, stats=True, sched="sync", pixseed=21, level=None)
+        corpus += [
+            dict(base_cfg, irregular=[[8, 16, 16], [8, 16, 16]]),                       # largest chunk == tile, grid shifted
+            dict(base_cfg, shape=[32, 32], byteorder=">"),                              # big-endian source, no padding/rechunk
+            dict(base_cfg, shape=[32, 32], recompute=True),                             # the same Delayed computed twice
+            dict(base_cfg, shape=[32, 32], dtype="int64", comp="lerc"),                 # codec cannot take the dtype
+            dict(base_cfg, shape=[32, 32], comp="lzw", ckw={"level": 5}),               # codec has no level
+            dict(base_cfg, dtype="float32", comp="lerc_zstd", ckw={"zstd_level": 9}),   # inner level is not a tolerance
+            dict(base_cfg, comp="Lerc_Deflate", ckw={"ZLEVEL": 9, "max_z_error": 2}),   # asked-for tolerance 2
+            dict(base_cfg, dst_state="existing-large", spill_sz=1, wpc=2, sched="threads4"),
+            dict(base_cfg, dst_state="existing-small"),
+            dict(base_cfg, dst_state="parts-dir", spill_sz=1, wpc=3),
+        ]
         done = 0
         for i, cfg in enumerate(corpus):
             if uncompressed_single_tile_level(cfg):
@@ -1046,16 +1361,20 @@ def run(R: Run):
             if uncompressed_single_tile_level(cfg):
                 cfg["comp"] = "zstd"  # the uncompressed variant would hang, see the probe below
                 R.count("e2e|uncompressed-single-tile-level-avoided")
-            if i % 4 == 1:
+            plain = lambda c: c["comp"].lower() in ("deflate", "zstd") and c["dtype"] in DTYPES
+            if i % 4 == 1 and plain(cfg):
                 # state across calls: a second graph computed in the SAME dask.compute — the same source array to a
                 # second destination with other writer options, or an unrelated image
                 if rng.random() < 0.5:
                     cfg2 = dict(cfg, spill_sz=rng.choice([None, 1, 5000]), wpc=rng.choice([None, 1, 3]),
-                                comp=rng.choice(["deflate", "zstd"]), bigtiff=rng.choice([None, False]),
+                                comp=rng.choice(["deflate", "zstd"]), ckw={}, predictor=None, bigtiff=rng.choice([None, False]),
                                 blocksize=rng.choice([cfg["blocksize"], [16], [32, 16]]))
                 else:
                     cfg2 = gen_cfg(rng, big=False)
                     cfg2["dyadic"] = True
+                    if not plain(cfg2):
+                        cfg2.update(comp="zstd", ckw={}, predictor=None, dtype=cfg2["dtype"] if cfg2["dtype"] in DTYPES else "int16",
+                                    nodata=None)
                 if uncompressed_single_tile_level(cfg2):
                     cfg2["comp"] = "zstd"
                 try:
@@ -1144,6 +1463,27 @@ def run(R: Run):
                 os.unlink(d)
             R.oracle(not bad, bad[0][0] if bad else "handoff", case, "; ".join(w for _, w in bad[:3]), sig="handoff")
 
+        # ---- the sink under forced interleavings of the FIRST part writes (parts directory created lazily): every
+        # interleaving of two writers' filesystem steps, a seeded sample (thorough: many more) for three writers
+        import itertools  # pylint: disable=import-outside-toplevel
+
+        def interleavings(counts):
+            items = [t for t, c in enumerate(counts) for _ in range(c)]
+            return sorted(set(itertools.permutations(items))) if len(items) <= 8 else None
+
+        scheds = [(2, list(sc)) for sc in interleavings([4, 4])]
+        for _ in range(R.pick(60, 1500)):
+            sc = [0] * 4 + [1] * 4 + [2] * 4
+            rng.shuffle(sc)
+            scheds.append((3, sc))
+        for k, (nt, sc) in enumerate(scheds):
+            try:
+                bad = sink_race_case(sc, nt, workdir, f"race{k}")
+            except Exception:  # pylint: disable=broad-except
+                bad = ("sink-race-harness-exception", traceback.format_exc()[-500:])
+            R.oracle(bad is None, bad[0] if bad else "sink-first-writes-race", {"fn": "MPUFileSink first writes", "threads": nt, "schedule": sc},
+                     bad[1] if bad else "", sig=f"sink-race|{nt}-threads")
+
         for k in range(R.pick(25, 300)):
             try:
                 handoff_case(k)
@@ -1220,6 +1560,14 @@ def replay(R: Run, rec) -> int:
         except Exception as e:  # pylint: disable=broad-except
             print("driver unavailable:", e)
         return 1 if fails else 0
+    if key.startswith("sink-"):
+        d = tempfile.mkdtemp(prefix="c05-")
+        try:
+            bad = sink_race_case(case["schedule"], case["threads"], d, "replay")
+        finally:
+            shutil.rmtree(d, ignore_errors=True)
+        print("result:", bad or "all first writes succeeded, finalised file correct")
+        return 1 if bad else 0
     if key.startswith("make-empty-cog-hangs"):
         try:
             with_timeout(4.0, lambda: T._make_empty_cog(tuple(case["shape"]), "uint8", None, blocksize=[16], compression="none"))  # pylint: disable=protected-access
